@@ -40,15 +40,23 @@ def run_harness(R, n, seed, tag="", ops=None):
 
 
 def case_ops(trace_lines, caseid):
-    """the `ev` lines of one case of a trace"""
-    ops, on = [], False
+    """the thread count and the `ev` lines of one case of a trace"""
+    ops, on, threads = [], False, 1
     for l in trace_lines:
         if l.startswith("case "):
             on = (l == "case " + caseid)
             continue
+        if on and l.startswith("cfg "):
+            m = re.search(r"threads=(\d+)", l)
+            if m:
+                threads = int(m.group(1))
         if on and l.startswith("ev "):
             ops.append(l)
-    return ops
+    return threads, ops
+
+
+def ops_text(threads, ops):
+    return "case 0\nthreads %d\n" % threads + "\n".join(ops) + "\n"
 
 
 def runner_on(exe, trace, prop):
@@ -56,11 +64,11 @@ def runner_on(exe, trace, prop):
     return rc, out
 
 
-def shrink(R, exe, prop, ops, sig_prefix, budget=60):
+def shrink(R, exe, prop, threads, ops, sig_prefix, budget=60):
     """ddmin a failing case: re-run the implementation on a sub-history and keep it while the oracle still reports the same kind of failure"""
     tmp = os.path.join(R.work, "shrink-ops")
     def fails(cand):
-        open(tmp, "w").write("case 0\n" + "\n".join(cand) + "\n")
+        open(tmp, "w").write(ops_text(threads, cand))
         tr, _ = run_harness(R, 1, 1, tag="-shrink", ops=tmp)
         if tr is None:
             return False
@@ -139,9 +147,9 @@ def run(R, prop, extra_assumptions=()):
                     distinct.add(p[5])
             elif l.startswith("DIVERGE "):
                 p = l.split(" ", 4)
-                ops = case_ops(lines, p[1])
+                nthr, ops = case_ops(lines, p[1])
                 R.divergence("case %s event %s: %s differs between model and implementation" % (p[1], p[2], p[3]),
-                             dict(trace=label, case=p[1], event=int(p[2]), what=p[3], detail=p[4][:3000], ops=ops[:int(p[2])]))
+                             dict(trace=label, case=p[1], event=int(p[2]), what=p[3], detail=p[4][:3000], threads=nthr, ops=ops[:int(p[2])]))
             elif l.startswith("ORACLE " + prop):
                 p = l.split(" ", 5)
                 sig = p[4]
@@ -152,9 +160,10 @@ def run(R, prop, extra_assumptions=()):
                     R.oracle_failure(sig, detail.lstrip("| "), dict(trace=label, case=p[2], event=int(p[3])))
                     continue
                 seen_sig[sig] = 1
-                ops = case_ops(lines, p[2])[:int(p[3])]
-                small = shrink(R, exe, prop, ops, sig.split(":")[0]) if len(seen_sig) <= 4 else ops
-                R.oracle_failure(sig, detail.lstrip("| "), dict(trace=label, case=p[2], event=int(p[3]), ops=small,
+                nthr, ops = case_ops(lines, p[2])
+                ops = ops[:int(p[3])]
+                small = shrink(R, exe, prop, nthr, ops, sig.split(":")[0]) if len(seen_sig) <= 4 else ops
+                R.oracle_failure(sig, detail.lstrip("| "), dict(trace=label, case=p[2], event=int(p[3]), threads=nthr, ops=small,
                                                               replay_hint="VERIF_OPS=<file with these ev lines> go1.26 test -tags verif ./harness/fwcore"))
         if label == "generated":
             samples = [l for l in lines if l.startswith(("ev int", "ev data"))][:4]
@@ -171,12 +180,13 @@ def replay(R, path):
     import json
     body = json.load(open(path))
     ops = body.get("ops") or body.get("first_divergence", {}).get("ops") or []
+    threads = body.get("threads") or body.get("first_divergence", {}).get("threads") or 1
     ok, exe, log = vlib.extract_build("Fw")
     ok2, log2 = vlib.go_test_build("fwcore", os.path.join(R.work, "h.test"))
     if not (ok and ok2):
         print("build failed"); return 2
     f = os.path.join(R.work, "replay-ops")
-    open(f, "w").write("case 0\n" + "\n".join(ops) + "\n")
+    open(f, "w").write(ops_text(threads, ops))
     tr, out = run_harness(R, 1, 1, tag="-replay", ops=f)
     if tr is None:
         print(out[-3000:]); return 1
